@@ -63,6 +63,11 @@ var literalCases = map[string]struct {
 		c: Case{Program: "fork (=> pass => pass) | sort -r n", Meta: prog.Meta{Ordered: false, Deterministic: true, FinalSort: "sort -r n"}, Source: "grammar",
 			Input: gen.SeqFromZSON(`{n:1} {n:3} {n:2} {n:null(int64)}`), Reader: "plain", Frame: 100000, Threads: 1, Batch: 100},
 	},
+	"known-C07-partials-union-agg": {
+		sig: "C07/summarize-partials/union-agg-over-union-typed-values", expect: "known",
+		c: Case{Program: "fork (=> pass => pass) | union(n) by k", Meta: prog.Meta{Ordered: false, Deterministic: true}, Source: "grammar",
+			Input: gen.SeqFromZSON(`{k:1,n:5(int32)((int32,int64))}`), Reader: "plain", Frame: 100000, Threads: 1, Batch: 100},
+	},
 	"known-C07-sortkey-join-desc-nulls": {
 		sig: "C07/sortkey-join/desc-null-keys", expect: "known",
 		c: Case{Program: "fork (=> pass => put a:=a) | join on a=a b2:=b", Meta: prog.Meta{Ordered: false, Deterministic: true}, Source: "grammar",
